@@ -696,7 +696,14 @@ func (c *wsConn) readFrame(ctx context.Context, r io.Reader) {
 	// use a autoResetReader in case the read takes a long time
 	buf, err := io.ReadAll(c.autoResetReader(r)) // todo buffer pool
 	if err != nil {
-		c.readError <- xerrors.Errorf("reading frame into a buffer: %w", err)
+		err = xerrors.Errorf("reading frame into a buffer: %w", err)
+		// mark the connection as unusable before signalling, like nextMessage
+		// does; otherwise requests accepted until the reconnect completes are
+		// written to the dead socket and never fail
+		c.errLk.Lock()
+		c.incomingErr = err
+		c.errLk.Unlock()
+		c.readError <- err
 		return
 	}
 
